@@ -149,6 +149,7 @@ func vfRunOne(t *testing.T, prop, tier, variant string, tape *vfTape, cryptoSeed
 		w := vfNewWorld(t, prop, tier, tape)
 		w.known = known
 		w.variant = variant
+		w.cryptoSeed = cryptoSeed
 		defer func() {
 			if p := recover(); p != nil {
 				switch e := p.(type) {
